@@ -5,7 +5,7 @@ import json
 
 from hypothesis import strategies as st
 
-from vlib import vpool
+from vlib import scratch, vpool
 from vlib.runner import CaseResult, HarnessError, Violation
 
 ID = "C14"
@@ -411,7 +411,7 @@ def extra_phases(tier, seed, shard, nshards, stats, run_one):
         return
     if shard >= 8:
         return
-    tmp = tempfile.mkdtemp(prefix="gwffuzz", dir="/dev/shm" if os.path.isdir("/dev/shm") else None)
+    tmp = tempfile.mkdtemp(prefix="gwffuzz", dir=scratch.base())
     try:
         corpus, out = os.path.join(tmp, "corpus"), os.path.join(tmp, "out")
         os.makedirs(corpus)
